@@ -256,6 +256,25 @@ def sampler_body_factory(ctx):
         else:
             it = dict(n_requested_samples=case["n_requested"], init_batch_size=case["init_batch"],
                       growth_factor=case["growth"], max_prior_samples=case["max_prior"])
+            # the sampler announces every round on its logger ("iteration i, computing N likelihoods"): N is the range it
+            # requests from the workers in that round
+            import logging as _logging
+            import re as _re
+            announced = []
+
+            class _Grab(_logging.Handler):
+                def emit(self, record):
+                    m_ = _re.search(r"iteration (\d+), computing (\d+) likelihoods", record.getMessage())
+                    if m_:
+                        announced.append(int(m_.group(2)))
+
+            lg_ = _logging.getLogger("thejoker")
+            h_, lvl_ = _Grab(level=1), lg_.level
+            others_ = [(x, x.level) for x in lg_.handlers]
+            for x, _l in others_:
+                x.setLevel(100)         # (nothing of this goes to the console)
+            lg_.addHandler(h_)
+            lg_.setLevel(1)
             try:
                 R = rej.run_rejection(ctx, case, lls=lls, iterative=it, order_fn=c06.iter_order)
             except Violation:
@@ -267,7 +286,21 @@ def sampler_body_factory(ctx):
                                     "(its batches did not line up): %s" % (type(e).__name__, str(e)[:200]))
                 ctx.classes["use:iterative raised %s (library too small or non-finite likelihoods)" % type(e).__name__] += 1
                 return
+            finally:
+                lg_.removeHandler(h_)
+                lg_.setLevel(lvl_)
+                for x, l_ in others_:
+                    x.setLevel(l_)
             order = c06.iter_order(case, R["rg"])
+            if case["path"] != "mem" and announced:
+                rounds = [sum(x for x in mc["sizes"] if x is not None) for mc in R["pool"].map_calls
+                          if mc["func"] == "marginal_ln_likelihood_worker"]
+                if len(rounds) == len(announced) and rounds != announced:
+                    raise Violation("iterative_rejection_sample: the batches handed to the workers in a round do not add up to the "
+                                    "number of prior samples the sampler set out to evaluate in that round",
+                                    announced_per_round=announced, rows_in_batches_per_round=rounds)
+                if len(rounds) == len(announced):
+                    ctx.classes["use:iterative rounds checked against the announced counts"] += 1
         out, rg, helper, lib = R["res"], R["rg"], R["helper"], R["lib"]
         un = rg.calls("uniform")
         if not un:
